@@ -52,10 +52,18 @@ Definition encodes_inert (xml : bool) (p : prot) (s : str) : bool :=
 Definition bad_orderings (xml : bool) (p : prot) : list str :=
   filter (fun s => negb (encodes_inert xml p s)) (strings_upto 3 active_alphabet).
 
-Lemma orderings_sweep :
-  forallb (fun xml => forallb (fun p => match bad_orderings xml p with [] => true | _ => false end) all_prots)
-          [false; true] = true.
+(** the first offenders of every configuration: the sweep proves there is none
+    (stated in exactly the form [nested_offenders_nil] takes, so that no
+    conversion is needed to use it) *)
+Lemma ordering_offenders_nil :
+  flat_map (fun xml => flat_map (fun p => firstn 3 (bad_orderings xml p)) all_prots) [false; true] = [].
 Proof. vm_compute. reflexivity. Qed.
+
+Lemma orderings_sweep : forall xml p, In p all_prots -> bad_orderings xml p = [].
+Proof.
+  intros xml p Hp. assert (Hx : In xml [false; true]) by (destruct xml; cbn; auto).
+  exact (nested_offenders_nil bad_orderings [false; true] all_prots ordering_offenders_nil xml p Hx Hp).
+Qed.
 
 Lemma is_parsed000_true r : is_parsed000 r = true -> r = IParsed 0 0 0.
 Proof. destruct r as [[|?] [|?] [|?]| |]; try discriminate. reflexivity. Qed.
@@ -97,9 +105,7 @@ Proof.
   { apply forallb_forall. intros c Hc. pose proof active_alphabet_ruled as H.
     rewrite forallb_forall in H. specialize (H xml Hx). rewrite forallb_forall in H. exact (H c (Hs c Hc)). }
   rewrite (encode_policy_irrelevant xml p pol UKeep s Hr).
-  pose proof orderings_sweep as H. rewrite forallb_forall in H. specialize (H xml Hx).
-  rewrite forallb_forall in H. specialize (H p Hp).
-  destruct (bad_orderings xml p) eqn:E; [|discriminate]. clear H.
+  pose proof (orderings_sweep xml p Hp) as E.
   pose proof (filter_negb_nil (encodes_inert xml p) (strings_upto 3 active_alphabet) E s
                               (strings_upto_In active_alphabet 3 s Hl Hs)) as H.
   unfold encodes_inert in H. rewrite encode_builtin_keep_fast.
@@ -113,8 +119,11 @@ Definition copied_ok (xml : bool) (c : N) : bool :=
   | None => if passthrough c then is_parsed000 (parse_encoded [c]) else true
   end.
 
-Lemma copied_sweep : forallb (fun xml => forallb (copied_ok xml) (nrange 0 128)) [false; true] = true.
+Lemma copied_offenders : tagged_offenders copied_ok (nrange 0 128) = [].
 Proof. vm_compute. reflexivity. Qed.
+
+Lemma copied_sweep : forallb (fun xml => forallb (copied_ok xml) (nrange 0 128)) [false; true] = true.
+Proof. exact (tagged_offenders_nil copied_ok (nrange 0 128) copied_offenders). Qed.
 
 Lemma passthrough_lt c : passthrough c = true -> c < 128.
 Proof.
